@@ -61,6 +61,7 @@ type Run struct {
 	assume     []string
 	exhaustive bool
 	replay     ReplayFunc
+	fails      []string
 }
 
 const maxSamples = 6
@@ -89,6 +90,16 @@ func (r *Run) Expired() bool { return time.Now().After(r.deadline) }
 func (r *Run) Cap(what string) {
 	r.mu.Lock()
 	r.caps = append(r.caps, what)
+	r.exhaustive = false
+	r.mu.Unlock()
+}
+
+// Fail records a harness-level problem (e.g. an execution that could not be replayed
+// deterministically). If the run finds no violation, it ends with exit code 2 instead of 0:
+// a run that could not explore what it claims must not pass silently.
+func (r *Run) Fail(msg string) {
+	r.mu.Lock()
+	r.fails = append(r.fails, msg)
 	r.exhaustive = false
 	r.mu.Unlock()
 }
@@ -377,6 +388,12 @@ func (r *Run) Finish() int {
 		exit = 2
 	}
 
+	for _, f := range r.fails {
+		lines = append(lines, "HARNESS-ERROR property="+r.Prop+" "+f)
+		if exit == 0 {
+			exit = 2
+		}
+	}
 	// vacuity guard: a run whose histogram has fewer than two outcome classes collided nothing
 	if len(hist) < 2 && exit == 0 {
 		lines = append(lines, fmt.Sprintf("HARNESS-ERROR property=%s vacuous exploration: %d outcome classes", r.Prop, len(hist)))
